@@ -1,7 +1,7 @@
 (** Extraction of the C07 model (ExtrOcamlBasic only; N/Z/positive/nat stay inductive). *)
 Require Extraction.
 Require Import ExtrOcamlBasic.
-From Kardia Require Import C07.Model Generated.C07Facts.
+From Kardia Require Import C07.Model C07.ModelRange Generated.C07Facts.
 Extraction Language OCaml.
 Set Extraction KeepSingleton.
 From Kardia Require Import Base.Anchor.
@@ -9,4 +9,5 @@ Extraction "../ocaml/C07/model.ml" Anchor.anchor C07Facts.empty_root_hash
   Model.init_state Model.step Model.observe Model.slot Model.nodedb
   Model.prove Model.verify_proof Model.verify_loop Model.db_of Model.trie_hash Model.build_root
   Model.stack_root Model.derive_sha_stack Model.derive_sha_trie Model.secure_key
-  Model.hex_to_compact Model.compact_to_hex Model.keybytes_to_hex.
+  Model.hex_to_compact Model.compact_to_hex Model.keybytes_to_hex
+  ModelRange.iter_from ModelRange.verify_range.
